@@ -1,8 +1,9 @@
 (* C13 - resize keeps retained data, zero-fills new space (unit level: what the reader returns for
    chunks written under the old extents when the dataspace says new extents).
-   Model: Model/Chunk.v.  Lemmas: Proofs/ChunkTiling.v.  Examples: Proofs/ChunkExamples.v. *)
+   Model: Model/Chunk.v.  Lemmas: Proofs/ChunkTiling.v, Proofs/ChunkResizes.v.  Examples: Proofs/ChunkExamples.v,
+   Proofs/ChunkResizes.v (read_after_resizes_example, chain_not_covered). *)
 From HV Require Import Base.Prelude Model.Chunk
-  Proofs.ChunkLists Proofs.ChunkSpec Proofs.ChunkCoords Proofs.ChunkTiling Proofs.ChunkExamples.
+  Proofs.ChunkLists Proofs.ChunkSpec Proofs.ChunkCoords Proofs.ChunkTiling Proofs.ChunkExamples Proofs.ChunkResizes.
 
 (* the specification function behaves as the property text says *)
 Theorem C13_resize_spec_laws : forall esz,
@@ -21,12 +22,41 @@ Theorem C13_read_after_resize : forall old new cdims esz data,
 Proof. exact read_after_resize_correct. Qed.
 Print Assumptions C13_read_after_resize.
 
-(* two resizes without a write in between are right when no intermediate extent is below both *)
-Theorem C13_read_after_two_resizes_partial : forall old mid new cdims esz data,
-  shape_ok old cdims esz -> mid_covers old mid new -> lenN data = vol old esz ->
-  read_after_resize old new cdims esz data = Ok (resize_twice_spec old mid new esz data).
-Proof. exact read_after_two_resizes. Qed.
-Print Assumptions C13_read_after_two_resizes_partial.
+(* ANY number of resizes after a full write, no write in between (every rank, every mix of growing and shrinking):
+   the chunk index still describes the written extents `old`; what the library returns under the final extents is the
+   specified array (resize_arr folded over the requested extents) whenever no extent of the chain is, in some
+   dimension, below both the written and the final extent (chain_covers).  The excluded class is exactly
+   KNOWN_FINDINGS C13-shrink-then-grow. *)
+Theorem C13_read_after_resizes : forall esz old exts cdims data,
+  shape_ok old cdims esz -> Forall (fun e => length e = length old) exts ->
+  chain_covers old exts -> lenN data = vol old esz ->
+  read_after_resize old (last exts old) cdims esz data = Ok (snd (resize_chain old exts esz data)).
+Proof. exact read_after_resizes_correct. Qed.
+Print Assumptions C13_read_after_resizes.
+
+(* ... and the hypothesis is tight: for EVERY chain of positive extents outside it there is data on which the
+   library's answer differs from the specification (all bytes 1: the library shows stale ones where zeros belong) *)
+Theorem C13_read_after_resizes_tight : forall esz old exts cdims,
+  shape_ok old cdims esz -> Forall (fun e => length e = length old) exts ->
+  Forall (Forall (fun x => 0 < x)) exts ->
+  ~ chain_covers old exts ->
+  exists data, lenN data = vol old esz /\
+    read_after_resize old (last exts old) cdims esz data <> Ok (snd (resize_chain old exts esz data)).
+Proof. exact read_after_resizes_tight. Qed.
+Print Assumptions C13_read_after_resizes_tight.
+
+(* resizes and full writes in any order (accepted or refused: a Resize of another rank and a Write of another length
+   change nothing on either side): after any history `pre`, a full write at the then current extents w followed by a
+   covered chain of resizes reads back as specified - a full write resets the history, nothing before it matters *)
+Theorem C13_read_after_ops : forall esz pre d exts cdims (st : lib_state) sp,
+  snd st = fst sp ->
+  let w := fst (run_spec esz sp pre) in
+  shape_ok w cdims esz -> lenN d = vol w esz ->
+  Forall (fun e => length e = length w) exts -> chain_covers w exts ->
+  lib_read cdims esz (run_lib esz st (pre ++ RWrite d :: map RResize exts))
+  = Ok (snd (run_spec esz sp (pre ++ RWrite d :: map RResize exts))).
+Proof. exact read_after_ops_correct. Qed.
+Print Assumptions C13_read_after_ops.
 
 (* shrink then grow exposes the data that was cut off: dims [8], chunk [4], data 1..8,
    resize to [3], resize to [7] *)
